@@ -1,0 +1,47 @@
+//go:build verif
+// +build verif
+
+package bfe_spdy
+
+import (
+	"bytes"
+	"encoding/binary"
+	"fmt"
+)
+
+import (
+	http "github.com/bfenetworks/bfe/bfe_http"
+)
+
+// VerifC25Request feeds one SYN_STREAM frame carrying the given UNCOMPRESSED SPDY/3 name/value block
+// through the real Framer.ReadFrame (header compression disabled) and the real newWriterAndRequest,
+// and returns the request the SPDY frontend hands to the handler.  For the verification harness.
+func VerifC25Request(block []byte, fin bool) (*http.Request, error) {
+	var buf bytes.Buffer
+	binary.Write(&buf, binary.BigEndian, uint32(0x80000000|3<<16|uint32(TypeSynStream)))
+	flags := uint32(0)
+	if fin {
+		flags = uint32(ControlFlagFin)
+	}
+	binary.Write(&buf, binary.BigEndian, flags<<24|uint32(10+len(block)))
+	binary.Write(&buf, binary.BigEndian, uint32(1)) // stream id
+	binary.Write(&buf, binary.BigEndian, uint32(0)) // associated stream
+	buf.Write([]byte{0, 0})                         // priority, slot
+	buf.Write(block)
+	fr := &Framer{r: &buf, headerCompressionDisabled: true}
+	f, err := fr.ReadFrame()
+	if err != nil {
+		return nil, err
+	}
+	syn, ok := f.(*SynStreamFrame)
+	if !ok {
+		return nil, fmt.Errorf("not a SYN_STREAM")
+	}
+	sc := &serverConn{remoteAddrStr: "10.0.0.9:1234"}
+	st := &stream{id: uint32(syn.StreamId), state: stateOpen}
+	if fin {
+		st.state = stateHalfClosedRemote
+	}
+	_, req, err := sc.newWriterAndRequest(st, syn)
+	return req, err
+}
